@@ -636,6 +636,8 @@ impl TableNamespace {
 
     fn set_dirty(&mut self, transaction: &WriteTransaction) {
         transaction.dirty.store(true, Ordering::Release);
+        #[cfg(redb_verif)]
+        crate::verif::point("set_dirty.after_store", &[]);
         if !transaction.transaction_tracker.any_savepoint_exists() {
             // No savepoints exist, and we don't allow savepoints to be created in a dirty transaction
             // so we can disable allocation tracking now
@@ -1287,6 +1289,8 @@ impl WriteTransaction {
             if self.dirty.load(Ordering::Acquire) {
                 return Err(SavepointError::InvalidSavepoint);
             }
+            #[cfg(redb_verif)]
+            crate::verif::point("ephemeral_savepoint.checked", &[]);
             self.allocate_savepoint()?
         };
         #[cfg(feature = "logging")]
